@@ -724,7 +724,7 @@ fn finish(run: &mut Run, out: Result<ProcExit<Findings>, String>) {
 pub fn sampled_runs(tier: Tier) -> u64 {
     match tier {
         Tier::Quick => 10_000,
-        Tier::Thorough => 1_500_000,
+        Tier::Thorough => 600_000,
     }
 }
 
